@@ -103,6 +103,15 @@ def read_model(system, model_path, name=None):
     else:
         serializer = _get_serializer(1)
 
-    model = serializer.ModelReader(system, path).read_model(**kwargs)
+    registered = dict(system.models)
+    try:
+        model = serializer.ModelReader(system, path).read_model(**kwargs)
+    except:
+        # Undo the renaming of a registered model to <name>_BAKn
+        for name_, impl in registered.items():
+            if (impl.name != name_ and name_ not in system.models
+                    and system.models.get(impl.name) is impl):
+                system.rename_model(name_, impl.name)
+        raise
     model.path = path
     return model
